@@ -28,7 +28,7 @@ structure Item where
   ident : Bytes
   value : Cbor
 
-def tx (s : String) : Cbor := .text s.toUTF8.toList
+def tx (s : String) : Cbor := .text (asciiBytes s)
 
 /-- serde field order of `IssuerSignedItem` -/
 def Item.toCbor (it : Item) : Cbor :=
